@@ -366,6 +366,8 @@ def test_states(size, rng_seed=7):
 def post_equiv(ps_sent, ps_user, perm, size):
     """ps_sent on the new labelling == ps_user on the original labelling (perm[j] = original mode of j)."""
     from perceval import BasicState
+    if perm:
+        size = len(perm)
     for t in test_states(size):
         if perm:
             s = [0] * size
@@ -787,6 +789,8 @@ def gen_ops(rng, tr, n_ops):
         if rng.random() < 0.8:
             out.append({"op": "with_input", "s": gen_state(rng, n, 3)})
             st["inp"] = True
+        if st["filt"] and rng.random() < 0.6:
+            out.append(prepare_op())
         return out
 
     def prepare_op():
@@ -1017,12 +1021,46 @@ def gen_ops(rng, tr, n_ops):
     if tr["remote_built"] and rng.random() < 0.8:
         st["filt"] = True
         ops.append({"op": "filter", "n": rng.choice([0, 0, 1, 2, 3])})
+    if tr.get("pf", {}).get("threshold_only") and rng.random() < 0.5:
+        # a platform that can only do threshold detection: `thresholded_output(False)` is refused
+        ops.append({"op": "thresholded", "v": rng.random() < 0.4})
     if tr["remote_built"] and st["size"] >= 2 and rng.random() < 0.3:
         ops.append(port_op())
     for _ in range(n_cfg):
         ops.append(config_op() if rng.random() < 0.88 else circuit_op())
     if rng.random() < 0.08:
         ops.extend(clear_ops())
+    if tr["remote_built"] and st["m"] >= 3 and rng.random() < 0.15:
+        # a component plugged on two modes AROUND a herald mode: the PERM the code inserts spans the herald
+        free = [k for k in range(st["size"]) if k not in st["heralds"]]
+        inner = [h for h in free if any(a < h for a in free) and any(b > h for b in free)]
+        if inner:
+            h = rng.choice(inner)
+            st["heralds"].append(h)
+            st["m"] -= 1
+            ops.append({"op": "add_herald", "mode": h, "expected": rng.randint(0, 1)})
+            a = rng.choice([k for k in free if k < h])
+            b = rng.choice([k for k in free if k > h])
+            st["nsym"] += 1
+            spec = gen_circ(rng, 2, prefix=f"h{st['nsym']}q", max_leaves=2, p_sym=0.3)
+            tr["sym"] = tr["sym"] + sym_names(spec)
+            ops.append({"op": "add_mapped", "map": {"list": rng.choice([[a, b], [b, a]])}, "circ": spec})
+            if st["filt"]:
+                ops.append(prepare_op())
+    if tr["remote_built"] and st["size"] >= 2 and rng.random() < 0.1:
+        # a port, then a component plugged on it by name
+        op = port_op()
+        ops.append(op)
+        if st.get("ports") and st["ports"][-1][0] == op["name"]:
+            st["nsym"] += 1
+            psize = op["size"]
+            spec = gen_circ(rng, psize, prefix=f"p{st['nsym']}q", max_leaves=2, p_sym=0.3)
+            tr["sym"] = tr["sym"] + sym_names(spec)
+            vals = list(range(psize))
+            rng.shuffle(vals)
+            ops.append({"op": "add_mapped", "map": {"dict": [[op["name"], vals]]}, "circ": spec})
+            if st["filt"]:
+                ops.append(prepare_op())
     if tr["remote_built"] and st["m"] > 1 and rng.random() < 0.12:
         # an input state, then a herald (expecting what the state has there, or not): the stored state lags behind
         # the heralds and is transmitted as it is; the photon window decides on n_user + n_heralds
@@ -1143,6 +1181,7 @@ class Session:
         _NET[0] = self.net
         self.hs = dict(DEFAULT_HANDLER, **scen.get("handler", {}))
         self.h = None              # the RPCHandler object (the user's, or the one RemoteProcessor builds)
+        self.sizes = []            # circuit size of the processor after each op
         self.ports = {}            # name -> (first mode, size) of the ports the user put on the remote processor
         self.http = []             # per op: the platform-details / job-creation requests emitted while it ran
         self.n_traffic = 0
@@ -1177,7 +1216,7 @@ class Session:
         # what the user configured (direct oracle)
         self.intent = {"filter": None, "noise": None, "post": None, "input": None, "input_fresh": False,
                        "heralds": {}, "circ": None, "converted": False, "local_heralds": {}, "max_shots": None,
-                       "sampler_its": [], "sampler_its_bad": []}
+                       "sampler_its": [], "sampler_its_bad": [], "params": {}}
 
     # -- the handler -----------------------------------------------------------------------------
     def handler_kwargs(self):
@@ -1476,6 +1515,7 @@ class Session:
         self.lean_ops.append(lop)
         self.outs.append(out)
         self.states.append(self.digest())
+        self.sizes.append(None if self.rp is None else self.rp.circuit_size)
         # the HTTP requests this call made the client emit
         new = self.net.traffic[self.n_traffic:]
         self.n_traffic = len(self.net.traffic)
@@ -1621,6 +1661,7 @@ class Session:
             def do():
                 before = dict(rp.parameters)
                 rp.set_parameter(op["k"], op["v"])
+                it["params"] = dict(it["params"], **{op["k"]: op["v"]})
                 if dict(rp.parameters) != before:
                     self.touch_jobs("param")
                 return {"done": True}
@@ -1628,6 +1669,7 @@ class Session:
         elif k == "clear_params":
             def do():
                 rp.clear_parameters()
+                it["params"] = {}
                 self.touch_jobs("clear_params")
                 return {"done": True}
             self.run_op({"op": k}, do)
@@ -1778,6 +1820,13 @@ class Session:
         elif k == "set_params":
             def do():
                 before = dict(rp.parameters)
+                # what the user has set once the call is over: every entry before the first key that is no string
+                wanted = dict(it["params"])
+                for a2, b2 in d.items():
+                    if a2 is None:
+                        break
+                    wanted[a2] = b2
+                it["params"] = wanted
                 try:
                     rp.set_parameters({(3 if a2 is None else a2): b2 for a2, b2 in op["d"]})
                 finally:
@@ -1800,6 +1849,7 @@ class Session:
                 with warnings.catch_warnings():
                     warnings.simplefilter("ignore")
                     rp.thresholded_output(op["v"])
+                it["params"] = dict(it["params"], thresholded=op["v"])
                 if dict(rp.parameters) != before:
                     self.touch_jobs("param")
                 self.flags.add("thresholded-set")
@@ -2271,6 +2321,14 @@ class Session:
             if not isinstance(prm, dict) or "min_detected_photons" not in prm or \
                     prm["min_detected_photons"] != it["filter"] or it["filter"] is None:
                 self.fail("payload-filter", f"filter configured {it['filter']!r}, parameters sent {prm!r}")
+        # the parameters the user set (set_parameter / set_parameters / thresholded_output, minus clear_parameters)
+        if not reshaped and isinstance(prm, dict) and "parameters" not in kw_keys:
+            mine = {a: b for a, b in it["params"].items() if a != "min_detected_photons"}
+            got_p = {a: b for a, b in prm.items() if a != "min_detected_photons"}
+            if got_p != mine or any(type(got_p[a]) is not type(mine[a]) for a in mine):
+                self.fail("payload-parameters", f"parameters set by the user {mine!r}, sent {got_p!r}")
+            elif mine:
+                self.flags.add("payload-parameters-compared")
         # noise
         nz = pl.get("noise")
         if it["noise"] is not None:
@@ -2468,7 +2526,8 @@ def diff_payload(ses, real_pl, model_pairs, model_iter=None):
     # the size of the processor when this payload was made (the session's processor may have been cleared since)
     c = real_pl.get("circuit")
     ses.cur_size = c.m if hasattr(c, "m") and not isinstance(c, (str, int)) else next(
-        (v["circ"]["size"] for v in model.values() if isinstance(v, dict) and "circ" in v), None)
+        (v["circ"]["size"] for v in model.values() if isinstance(v, dict) and "circ" in v),
+        getattr(ses, "op_size", None))
     for k in sorted(set(real_pl) | set(model)):
         if k not in real_pl or k not in model:
             bad.append(k)
@@ -2582,6 +2641,8 @@ def compare(ses: Session, rep):
     for i, (lop, ro, rs) in enumerate(zip(ses.lean_ops, ses.outs, ses.states)):
         mo, ms = outs[i], states[i]
         where = f"op {i} {lop['op']}"
+        ses.op_size = ses.jobs[lop["job"]][5]["size"] if (lop["op"] == "execute" and lop["job"] < len(ses.jobs)) \
+            else (ses.sizes[i] if i < len(ses.sizes) else None)
         if lop["op"] == "execute" and "attempts" in ro:
             # the model emits ONE job-creation POST per execution that passes the client-side checks, never another
             want = 1 if ("sent" in mo or "posted" in mo) else 0
@@ -2916,7 +2977,8 @@ def run(chk: core.Check):
                              "add-mapped-between-payloads", "matrix:after-mapped-add-perm", "matrix:after-clear",
                              "cleared", "cleared:no-modes", "cleared-then-add", "cleared-then-set-circuit",
                              "clear-refused-size", "clear-between-payloads", "set-parameters",
-                             "set-parameters-refused", "thresholded-set", "thresholded-refused"]
+                             "set-parameters-refused", "thresholded-set", "thresholded-refused",
+                             "payload-parameters-compared"]
     chk.lean = core.LeanDriver("C16")
     for scen in load_corpus():
         handle(chk, scen, corpus=True)
